@@ -101,10 +101,13 @@ class PokerProp(Prop):
     trusted_base = ["random.sample replaced by a deterministic sampler passed identically to model and implementation",
                     "payout floats compared with exact rationals at relative tolerance 1e-9"]
     assumptions = ["inputs are passed by value (fresh lists per game object)", "ante <= big blind when blinds are posted",
-                   "chip counts < 2^53"]
+                   "chip counts < 2^53 wherever floats are involved (rake, payouts, pnl); C04 also plays tables beyond 2^53, judged on the "
+                   "integer quantities only"]
+
+    huge_stacks = False          # C04: also tables with chip counts beyond 2^53 (integer bet sizing only)
 
     def gen_case(self, rng):
-        case = poker.gen_cfg(rng, self.scope)
+        case = poker.gen_cfg(rng, self.scope, huge=self.huge_stacks)
         return poker.play(rng, case, probes_per_state=self.probes)
 
     def generate(self, rng, tier, shard):
@@ -221,7 +224,8 @@ class C01(PokerProp):
                     why.append(f"step {e.i} {e.op}: payouts {o['pay']} + rake {o['rake']} != pot {sum(o['pot'])}"); break
                 if min(o["pay"]) < -1e-9:
                     why.append(f"step {e.i}: negative payout {o['pay']}"); break
-                if o["pnl"] != "!" and not core.close(sum(o["pnl"]), -sum(o["rake"])):
+                # (rounding of the float pnl figures is relative to their own size, not to the size of their sum)
+                if o["pnl"] != "!" and abs(sum(o["pnl"]) + sum(o["rake"])) > 1e-9 * max(1.0, max(abs(x) for x in o["pnl"])):
                     why.append(f"step {e.i}: pnl {o['pnl']} does not sum to minus the rake {sum(o['rake'])}"); break
         return why
 
@@ -338,6 +342,7 @@ def spec_closed_obs(o):
 
 class C04(PokerProp):
     pid = "C04"
+    huge_stacks = True
     small_scope = True
     title = "wager legality: accepted iff legal (seat, type, size); rejected actions leave the state unchanged"
     fields = ("toCall", "minBet", "maxBet", "valid", "stacks", "pot")
